@@ -30,6 +30,7 @@ class Fn:
     def __init__(self, key, **kw):
         self.key = key                               # "path.py::Qual.name"
         self.path, self.qualname = key.split("::")
+        self.qualname = self.qualname.split("#")[0]      # "file::qual#tag": a second contract for the same function
         self.props = kw.pop("props", [])
         self.cls = kw.pop("cls", None)               # class of `self`
         self.types = kw.pop("types", {})             # name -> type string (params, free variables)
